@@ -887,4 +887,179 @@ theorem mem_cleared (P : Params κ) (c : List (Cell κ)) (h : TWF P c) (i : Nat)
     obtain ⟨q, g1, g2, g3⟩ := exists_rep c.length i j hj hne
     exact ⟨q, g1, g2, by rw [← slot_mod, g3]; exact hjs⟩
 
+/-! ## Counting: a probe window longer than the number of entries contains an empty slot -/
+
+theorem occ_ge_of_window : ∀ (w : Nat) (c : List (Cell κ)) (s : Nat), w ≤ c.length →
+    (∀ e, e < w → slot c (s + e) ≠ none) → w ≤ occ c := by
+  intro w
+  induction w with
+  | zero => intro c s _ _; exact Nat.zero_le _
+  | succ w ih =>
+    intro c s hw hocc
+    have hn : 0 < c.length := by omega
+    have hin : (s + w) % c.length < c.length := Nat.mod_lt _ hn
+    -- clear the last slot of the window
+    have h1 := occ_set c ((s + w) % c.length) none hin
+    have hsome : (c[(s + w) % c.length]).isSome = true := by
+      have := hocc w (by omega)
+      unfold slot at this
+      rw [List.getElem?_eq_getElem hin] at this
+      cases hc : c[(s + w) % c.length] with
+      | none => rw [hc] at this; simp at this
+      | some x => rfl
+    rw [hsome] at h1
+    have h2 := ih (c.set ((s + w) % c.length) none) s (by simp; omega) (by
+      intro e he
+      rw [slot_set c (s + w) (s + e) none hn]
+      have : (s + w) % c.length ≠ (s + e) % c.length :=
+        fun x => mod_ne_of_lt c.length (s + e) (s + w) (by omega) (by omega) x.symm
+      simp [this]
+      exact hocc e (by omega))
+    simp at h1
+    omega
+
+/-- probing with `find_empty` succeeds when the window is longer than the number of entries -/
+theorem entryFind_succeeds (P : Params κ) (hP : P.Good) (c : List (Cell κ)) (hle : c.length ≤ P.maxSize)
+    (k : κ) (hocc : occ c < c.length / 2) : ∃ i, entryFind P c k true = some i := by
+  cases hf : entryFind P c k true with
+  | some i => exact ⟨i, rfl⟩
+  | none =>
+    exfalso
+    unfold entryFind at hf
+    rw [hP.probe_eq _ hle] at hf
+    rcases findFrom_none c k true _ _ hf with h | ⟨h, _⟩
+    · have := occ_ge_of_window (c.length / 2) c (P.home c.length k) (Nat.div_le_self _ _) (by
+        intro e he
+        obtain ⟨k', v', hs, _⟩ := h (P.home c.length k + e) (by omega) (by omega)
+        rw [hs]; simp)
+      omega
+    · cases h
+
+/-! ## Keys of the content are distinct -/
+
+def keysOf (c : List (Cell κ)) : List κ := (c.filterMap id).map (·.1)
+
+theorem nodup_keysOf_aux : ∀ (l : List (Cell κ)),
+    (∀ (a b : Nat) (k : κ) (v w : Nat), l[a]? = some (some (k, v)) → l[b]? = some (some (k, w)) → a = b) → (keysOf l).Nodup := by
+  intro l
+  induction l with
+  | nil => intro _; simp [keysOf]
+  | cons x xs ih =>
+    intro h
+    have hxs : (keysOf xs).Nodup := ih (by
+      intro a b k v w ha hb
+      have := h (a + 1) (b + 1) k v w (by simpa using ha) (by simpa using hb)
+      omega)
+    cases x with
+    | none => simpa [keysOf] using hxs
+    | some e =>
+      obtain ⟨k, v⟩ := e
+      simp only [keysOf, List.filterMap_cons, id, List.map_cons, List.nodup_cons]
+      refine ⟨?_, hxs⟩
+      intro hmem
+      obtain ⟨e', he', hk⟩ := List.mem_map.mp hmem
+      obtain ⟨x, hx, hxe⟩ := List.mem_filterMap.mp he'
+      obtain ⟨b, hb, hbx⟩ := List.getElem_of_mem hx
+      simp only [id] at hxe
+      obtain ⟨k', w⟩ := e'
+      simp only at hk; subst hk
+      have := h 0 (b + 1) k' v w (by simp) (by simp [List.getElem?_eq_getElem hb, hbx, hxe])
+      omega
+
+theorem nodup_keysOf (P : Params κ) (c : List (Cell κ)) (h : TWF P c) : (keysOf c).Nodup := by
+  apply nodup_keysOf_aux
+  intro a b k v w ha hb
+  have hal : a < c.length := (List.getElem?_eq_some_iff.mp ha).1
+  have hbl : b < c.length := (List.getElem?_eq_some_iff.mp hb).1
+  exact h.uniq a b k v w hal hbl (by rw [slot_lt c a hal, ha]; rfl) (by rw [slot_lt c b hbl, hb]; rfl)
+
+/-! ## Growth: `hashmap_rehash` keeps the contents and cannot fail -/
+
+/-- the entry `e` is in the table -/
+def Has (c : List (Cell κ)) (e : κ × Nat) : Prop := ∃ j, j < c.length ∧ slot c j = some e
+
+theorem has_iff_mem (c : List (Cell κ)) (e : κ × Nat) : Has c e ↔ e ∈ c.filterMap id :=
+  (mem_content_iff c e).symm
+
+theorem has_insert (c : List (Cell κ)) (i : Nat) (e : κ × Nat) (hn : 0 < c.length) (hnone : slot c i = none)
+    (e' : κ × Nat) : Has (c.set (i % c.length) (some e)) e' ↔ Has c e' ∨ e' = e := by
+  unfold Has
+  simp only [List.length_set]
+  constructor
+  · rintro ⟨j, hj, hs⟩
+    rw [slot_set c i j _ hn] at hs
+    split at hs
+    · cases hs; right; rfl
+    · left; exact ⟨j, hj, hs⟩
+  · rintro (⟨j, hj, hs⟩ | rfl)
+    · refine ⟨j, hj, ?_⟩
+      rw [slot_set c i j _ hn]
+      have : i % c.length ≠ j % c.length := by
+        intro heq; rw [slot_congr c i j heq, hs] at hnone; cases hnone
+      simp [this, hs]
+    · exact ⟨i % c.length, Nat.mod_lt _ hn, by rw [slot_set c i _ _ hn]; simp⟩
+
+theorem occ_insert (c : List (Cell κ)) (i : Nat) (e : κ × Nat) (hn : 0 < c.length) (hnone : slot c i = none) :
+    occ (c.set (i % c.length) (some e)) = occ c + 1 := by
+  have hin : i % c.length < c.length := Nat.mod_lt _ hn
+  have := occ_set c (i % c.length) (some e) hin
+  have g : c[i % c.length] = none := by
+    unfold slot at hnone; rw [List.getElem?_eq_getElem hin] at hnone; simpa using hnone
+  rw [g] at this; simpa using this
+
+theorem keysOf_cons_some (k : κ) (v : Nat) (rest : List (Cell κ)) : keysOf (some (k, v) :: rest) = k :: keysOf rest := by
+  simp [keysOf]
+
+theorem keysOf_cons_none (rest : List (Cell κ)) : keysOf (none :: rest) = keysOf rest := by
+  simp [keysOf]
+
+theorem rehashFill_spec (P : Params κ) (hP : P.Good) : ∀ (old t : List (Cell κ)), t.length ≤ P.maxSize → TWF P t →
+    occ t + occ old ≤ t.length / 2 → (keysOf old).Nodup → (∀ k, k ∈ keysOf old → ∀ w, ¬ Has t (k, w)) →
+    ∃ t', rehashFill P old t = some t' ∧ t'.length = t.length ∧ TWF P t' ∧ occ t' = occ t + occ old ∧
+      ∀ e, Has t' e ↔ Has t e ∨ e ∈ old.filterMap id := by
+  intro old
+  induction old with
+  | nil => intro t _ ht _ _ _; exact ⟨t, rfl, rfl, ht, by simp [occ], by simp⟩
+  | cons x rest ih =>
+    intro t hle ht hocc hnd hdis
+    cases x with
+    | none =>
+      rw [keysOf_cons_none] at hnd hdis
+      rw [occ_cons] at hocc
+      obtain ⟨t', h1, h2, h3, h4, h5⟩ := ih t hle ht (by simpa using hocc) hnd hdis
+      exact ⟨t', by simpa [rehashFill] using h1, h2, h3, by simp [occ_cons, h4], by simpa using h5⟩
+    | some e =>
+      obtain ⟨k, v⟩ := e
+      rw [keysOf_cons_some] at hnd hdis
+      rw [occ_cons] at hocc
+      simp only [Option.isSome_some, if_true] at hocc
+      obtain ⟨i, hi⟩ := entryFind_succeeds P hP t hle k (by omega)
+      have hn : 0 < t.length := by omega
+      have hnone : slot t i = none := by
+        refine (entryFind_absent P hP t hle k ?_ true i hi).2
+        intro j w hj hs
+        exact hdis k (by simp) w ⟨j, hj, hs⟩
+      have hnd' := List.nodup_cons.mp hnd
+      obtain ⟨t', h1, h2, h3, h4, h5⟩ := ih (t.set (i % t.length) (some (k, v))) (by simpa using hle)
+        (TWF_insert P hP t hle ht k v i hi hnone)
+        (by rw [occ_insert t i _ hn hnone]; simp; omega) hnd'.2 (by
+          intro k' hk' w hhas
+          rcases (has_insert t i (k, v) hn hnone (k', w)).mp hhas with h | h
+          · exact hdis k' (by simp [hk']) w h
+          · cases h; exact hnd'.1 hk')
+      refine ⟨t', by simp [rehashFill, hi, h1], by simpa using h2, h3, ?_, ?_⟩
+      · rw [h4, occ_insert t i _ hn hnone, occ_cons]; simp; omega
+      · intro e'
+        rw [h5, has_insert t i (k, v) hn hnone]
+        simp only [List.filterMap_cons, id, List.mem_cons]
+        constructor
+        · rintro ((h | h) | h)
+          · left; exact h
+          · right; left; exact h
+          · right; right; exact h
+        · rintro (h | h | h)
+          · left; left; exact h
+          · left; right; exact h
+          · right; exact h
+
 end Lm.Struct.Map
